@@ -45,6 +45,11 @@ func genC10(r *h.Rng, tier string, idx int) *h.Plan {
 			"when":   map[string]interface{}{"pattern": map[string]interface{}{key: id}},
 			"action": map[string]interface{}{"code": fmt.Sprintf("'%s.m%d'", id, marker)},
 		}
+		if r.P(1, 7) {
+			// replaced by a rule that has a schedule instead of a `when`: "re-adding
+			// under the same id replaces the old rule entirely", its pattern included
+			rule = map[string]interface{}{"schedule": "+1h", "action": map[string]interface{}{"code": fmt.Sprintf("'%s.m%d'", id, marker)}}
+		}
 		if r.P(1, 6) {
 			rule["ttl"] = "20s"
 		}
